@@ -1,4 +1,5 @@
 CONSTANTS
+  Pool = "all"
   MaxLines = 1
   MaxPerLine = 2
   MaxLexemes = 0
